@@ -258,7 +258,7 @@ func init() {
 			}
 		}})
 
-	register(&Rule{ID: "C06.hook", Props: []string{"C06", "C08"}, Floor: 2,
+	register(&Rule{ID: "C06.hook", Props: []string{"C06", "C08", "C07"}, Floor: 2,
 		Doc: "the slash hook passes validator and fraction through unchanged",
 		Run: func(e *Engine, r *RuleRun) {
 			fn := r.Need("keeper.Hooks.BeforeValidatorSlashed")
